@@ -259,10 +259,22 @@ impl WalWriter {
         stable_offset: u64,
         stable_entry_count: usize,
     ) -> Result<()> {
-        self.rollback_to_offset(stable_offset)?;
-        self.bytes_written = stable_offset;
-        self.entry_count = stable_entry_count;
-        Ok(())
+        let rolled_back = self.rollback_to_offset(stable_offset);
+        // Keep the counters in step with the file whenever the truncate itself took effect,
+        // even if the seek/fsync after it failed: counters left ahead of the real length
+        // would make the next rollback *extend* the log with zero bytes instead of
+        // truncating it.
+        let truncated = rolled_back.is_ok()
+            || self
+                .file
+                .metadata()
+                .map(|meta| meta.len() == stable_offset)
+                .unwrap_or(false);
+        if truncated {
+            self.bytes_written = stable_offset;
+            self.entry_count = stable_entry_count;
+        }
+        rolled_back
     }
 
     fn perform_fsync(&mut self) -> Result<()> {
